@@ -26,8 +26,14 @@ def sh(cmd, cwd=None, timeout=1800):
 
 def main():
     pid, name, src, needs = sys.argv[1:5]
-    noarg = len(sys.argv) > 5 and sys.argv[5] == "--no-arg"
-    extra = sys.argv[6] if len(sys.argv) > 6 else ""
+    rest = sys.argv[5:]
+    noarg = "--no-arg" in rest
+    tools = "--tools" in rest
+    extra = rest[rest.index("--flags") + 1] if "--flags" in rest else ""
+    runtpl = rest[rest.index("--run") + 1] if "--run" in rest else None
+    # backward compatible positional form: --no-arg "<flags>"
+    if noarg and "--flags" not in rest and len(rest) > rest.index("--no-arg") + 1 and not rest[rest.index("--no-arg") + 1].startswith("--"):
+        extra = rest[rest.index("--no-arg") + 1]
     tree = "/tmp/vs-%s-%d" % (name, os.getpid())
     ran = []
     ok = False
@@ -37,6 +43,11 @@ def main():
         shutil.copy(os.path.join(src, "demo.cpp"), tree + "/seedwork/demo.cpp")
         build_demo = "g++ -std=gnu++17 -O1 -msse4 -I%s/src seedwork/demo.cpp src/*.cpp -lz -llzma -lpthread %s -o seedwork/demo" % (tree, extra)
         run_demo = "cd seedwork && mkdir -p work && ./demo %s" % ("" if noarg else tree + "/seedwork/work")
+        if runtpl:
+            run_demo = "cd seedwork && mkdir -p work && " + runtpl.replace("{tree}", tree)
+        build_tools = "cmake -S . -B _build -G Ninja -DBUILD_TESTS=OFF -DBUILD_DOC=OFF >/dev/null 2>&1 && cmake --build _build >/dev/null 2>&1"
+        if tools:
+            sh(build_tools, tree)
         rc, out = sh(build_demo, tree)
         if rc != 0:
             print("demo does not compile on unchanged sources:\n" + out[-2000:]); return 1
@@ -50,6 +61,8 @@ def main():
         passed = "[  PASSED  ] 98 tests" in out
         ran.append(dict(cmd="test suite with the change", rc=rc, tail=out[-300:]))
         print("test suite with the change: %s" % ("98 passed" if passed else "NOT all passed\n" + out[-1500:]))
+        if tools:
+            sh(build_tools, tree)
         rc, out = sh(build_demo, tree)
         if rc != 0:
             print("demo does not compile with the change:\n" + out[-2000:]); return 1
